@@ -45,6 +45,12 @@ fn main() {
             let code = props::run(&ctx);
             std::process::exit(code);
         }
+        "c17-child" => {
+            if args.len() < 3 {
+                usage();
+            }
+            std::process::exit(props::c17::child_main(&args[2]));
+        }
         "replay" => {
             if args.len() < 3 {
                 usage();
